@@ -111,7 +111,16 @@ impl<'a> Tape<'a> {
             '\u{feff}', '\0', '\u{a0}', '\u{200b}', '\u{fffd}', '\u{2028}', '\u{85}', '\u{7f}', '\u{80}', '\u{7ff}', '\u{800}', '\u{ffff}', '\u{10000}', '\u{10ffff}', '\u{d7ff}',
             '\u{e000}',
         ];
-        let special_mode = self.below(6); // 0: special first character, 1: specials sprinkled, else none
+        let special_mode = self.below(7); // 0: special first character, 1: specials sprinkled, 6: literal tape octets, else none
+        if special_mode == 6 {
+            // the tape octets themselves when they are valid UTF-8 (else their low 7 bits): lets a coverage-guided
+            // fuzzer, which learns compared literals, place exact strings
+            let raw: Vec<u8> = (0..len).map(|_| self.byte()).collect();
+            return match String::from_utf8(raw) {
+                Ok(s) => s,
+                Err(e) => e.into_bytes().into_iter().map(|b| (b & 0x7f) as char).collect(),
+            };
+        }
         while s.len() < len {
             let room = len - s.len();
             if (special_mode == 0 && s.is_empty()) || (special_mode == 1 && self.below(4) == 0) {
@@ -195,7 +204,26 @@ pub fn gen_body_max(t: &mut Tape, attr: u16, max: usize) -> Body {
         Fmt::U64 => Body::U64(t.b_u64()),
         Fmt::Blob => {
             let n = t.var_len(max);
-            Body::Blob(t.blob(n))
+            if matches!(attr, 26 | 27 | 28) && n >= 4 && t.chance(30) {
+                // what these AVPs really carry: an LCP packet (code, identifier, length, options as type-length-value)
+                let mut v = vec![1 + t.below(4) as u8, t.byte(), 0, 0];
+                v[2..4].copy_from_slice(&(if t.chance(80) { n as u16 } else { t.b_u16() }).to_be_bytes());
+                while v.len() < n {
+                    let room = n - v.len();
+                    let l = (2 + t.below(6)).min(room);
+                    v.push(1 + t.below(8) as u8);
+                    if l >= 2 {
+                        v.push(l as u8);
+                        for _ in 2..l {
+                            v.push(t.byte());
+                        }
+                    }
+                }
+                v.truncate(n);
+                Body::Blob(v)
+            } else {
+                Body::Blob(t.blob(n))
+            }
         }
         Fmt::Text => {
             let n = t.var_len(max);
@@ -361,6 +389,7 @@ pub fn gen_data(t: &mut Tape) -> SMsg {
     let hdr = 6 + if has_len { 2 } else { 0 } + if ns_nr.is_some() { 4 } else { 0 } + if has_off { 2 } else { 0 };
     let max_n = if has_len { 65535 - hdr } else { 70000 };
     let n = match t.below(40) {
+        0 if !has_len && t.chance(10) => (1 << 20) * (1 + t.below(2)) + t.below(5000), // a payload of more than 1 MiB (no Length field can describe it)
         0 => max_n,                    // message of exactly 65 535 octets when L is set
         1 => 1 + t.below(max_n),       // anywhere
         2 | 3 => 1 + t.below(3000),
@@ -420,7 +449,10 @@ pub struct RecInfo {
 pub fn gen_record_opt(t: &mut Tape, w: &mut Vec<u8>, allow_bad_len: bool) -> RecInfo {
     let attr = match t.below(20) {
         0 => 20,
-        1 => 40 + t.below(4) as u16,
+        1 => {
+            let span = if t.chance(50) { 4 } else { 64 };
+            40 + t.below(span) as u16
+        }
         2 => t.u16(),
         _ => ASSIGNED[t.below(39)],
     };
@@ -1036,21 +1068,61 @@ pub fn gen_hide(t: &mut Tape) -> HideCase {
     for x in ap.iter_mut() {
         *x = t.byte();
     }
-    HideCase { avp, payload, secret, rv, lp, ap }
+    let mut h = HideCase { avp, payload, secret, rv, lp, ap };
+    // degenerate ciphertext: for kinds whose payload is free-form octets, choose the plaintext of one block so that its
+    // ciphertext block is all zero, or equal to the previous ciphertext block (about 2^-128 by chance)
+    if matches!(fmt_of(h.avp.attr), Some(Fmt::Blob)) && h.payload.len() >= 30 && t.chance(6) {
+        let last_full = (2 + h.payload.len()) / 16; // blocks lying entirely inside length field + payload
+        if last_full >= 2 {
+            let j = 1 + t.below(last_full - 1);
+            let ct = hide(h.avp.attr, &h.payload, &h.secret, &h.rv, &h.lp, &h.ap);
+            let mut ki = h.secret.clone();
+            ki.extend_from_slice(&ct[(j - 1) * 16..j * 16]);
+            let key = crate::md5::md5(&ki);
+            let same_as_prev = t.chance(30);
+            for b in 0..16 {
+                let want = if same_as_prev { ct[(j - 1) * 16 + b] } else { 0 };
+                h.payload[16 * j - 2 + b] = key[b] ^ want;
+            }
+            h.avp.body = Body::Blob(h.payload.clone());
+        }
+    }
+    h
 }
 
 /// a shared secret: empty, short, around the MD5 block boundaries (the key material is type(2) + secret + rv(4) for the
 /// first block and secret + 16 octets for the others), and up to ~300 octets
 pub fn gen_secret(t: &mut Tape) -> Vec<u8> {
-    let n = match t.below(12) {
-        0 => 0,
-        1 => 1 + t.below(64),
-        2 => 16,
-        3 => [39usize, 40, 47, 48, 49, 50, 55, 56, 57, 58, 63, 64, 65][t.below(13)],
-        4 => 65 + t.below(240),
-        5 => [103usize, 104, 111, 112, 113, 119, 120, 121, 122, 127, 128, 129][t.below(12)],
+    let n = match t.below(24) {
+        0 | 1 => 0,
+        2 | 3 => 1 + t.below(64),
+        4 | 5 => 16,
+        6 | 7 => [39usize, 40, 47, 48, 49, 50, 55, 56, 57, 58, 63, 64, 65][t.below(13)],
+        8 | 9 => 65 + t.below(240),
+        10 | 11 => [103usize, 104, 111, 112, 113, 119, 120, 121, 122, 127, 128, 129][t.below(12)],
+        12 => {
+            // just below a power of two (a fixed-size scratch buffer minus the few octets that go with the secret)
+            let p = [256usize, 512, 1024, 2048, 4096, 8192][t.below(6)];
+            p - t.below(24)
+        }
+        13 | 14 => {
+            // secrets that look like configuration text: "0x" + hex digits, plain hex, base64-ish
+            let k = 1 + t.below(12);
+            let raw = t.raw(k);
+            let hexs: String = raw.iter().map(|b| format!("{:02x}", b)).collect();
+            let s = match t.below(3) {
+                0 => format!("0x{}", hexs),
+                1 => hexs,
+                _ => raw.iter().map(|b| (b"ABCDEFGHIJKLMNOPQRSTUVWXYZabcdefghijklmnopqrstuvwxyz0123456789+/"[(b & 63) as usize]) as char).collect(),
+            };
+            return s.into_bytes();
+        }
         _ => 1 + t.below(20),
     };
+    if n > 400 {
+        let a = t.byte();
+        return (0..n).map(|i| (i as u8).wrapping_mul(31).wrapping_add(a)).collect();
+    }
     t.blob(n)
 }
 
